@@ -27,6 +27,11 @@ type zooNamedF float32
 
 type zooText struct{ V string }
 
+// zooLevel: a named integer type that marshals itself as text
+type zooLevel int
+
+func (l zooLevel) MarshalText() ([]byte, error) { return []byte(fmt.Sprintf("level-%d", int(l))), nil }
+
 func (t zooText) MarshalText() ([]byte, error) { return []byte(t.V), nil }
 
 type zooInner struct {
@@ -34,6 +39,12 @@ type zooInner struct {
 	S  *string
 	E  zooEnum
 	Tx zooText
+}
+
+// zooCell: reachable only through a list of lists
+type zooCell struct {
+	Label string
+	N     int64
 }
 
 type zooItem struct {
@@ -51,6 +62,7 @@ type zooItem struct {
 	NU   zooNamedU8
 	NF   zooNamedF
 	Tx   zooText
+	Lv   zooLevel
 	PTx  *zooText
 	IP   net.IP
 	PI   *int64
@@ -98,6 +110,9 @@ func zooSchema(items []*zooItem) (*graphql.Schema, error) {
 			return nil
 		}
 		return items[0]
+	})
+	q.FieldFunc("grid", func(ctx context.Context) [][]zooCell {
+		return [][]zooCell{{{Label: "a", N: 1}, {Label: "b", N: 2}}, {}, {{Label: "c", N: int64(len(items))}}}
 	})
 	sb.Mutation()
 	return sb.Build()
@@ -189,7 +204,7 @@ func zooGenItem(r *Rand, id int64) *zooItem {
 
 const zooInnerSel = "{ n s e tx }"
 
-var zooItemFields = []string{"id", "i8", "u16", "f32", "f64", "b", "s", "by", "t", "e", "nS", "nU", "nF", "tx", "pTx", "iP", "pI", "pS", "pB", "pE", "pT", "ls", "le", "lp", "lt",
+var zooItemFields = []string{"id", "i8", "u16", "f32", "f64", "b", "s", "by", "t", "e", "nS", "nU", "nF", "tx", "lv", "pTx", "iP", "pI", "pS", "pB", "pE", "pT", "ls", "le", "lp", "lt",
 	"in " + zooInnerSel, "pIn " + zooInnerSel, "lIn " + zooInnerSel, "lPIn " + zooInnerSel, "maybe " + zooInnerSel, "value " + zooInnerSel, "texts", "__typename"}
 
 // zooConform checks a JSON value against an advertised type under a selection; returns "" or what is wrong.
@@ -224,6 +239,9 @@ func zooConform(types map[string]*introFull, t *introType, v interface{}, sel *g
 		return ""
 	}
 	full := types[t.Name]
+	if full == nil && (t.Kind == "OBJECT" || t.Kind == "ENUM") {
+		return fmt.Sprintf("%s: type %s is referred to by a field but is not among the advertised types", path, t.Name)
+	}
 	switch t.Kind {
 	case "SCALAR":
 		switch t.Name {
@@ -341,6 +359,19 @@ func c14Zoo(c *Ctx, r *Rand, rounds int) {
 		for _, t := range doc.Schema.Types {
 			types[t.Name] = t
 		}
+		// the advertised schema is closed: every type a field refers to is itself advertised
+		for _, t := range doc.Schema.Types {
+			for i := range t.Fields {
+				ft := &t.Fields[i].Type
+				for ft.OfType != nil {
+					ft = ft.OfType
+				}
+				if ft.Name != "" && types[ft.Name] == nil {
+					rep.Fail("impl_ne_spec", nil, "zoo", map[string]interface{}{"what": "type shapes: the advertised schema refers to a type it does not advertise", "type": t.Name, "field": t.Fields[i].Name, "refers_to": ft.Name})
+					return
+				}
+			}
+		}
 		// a query over a random subset of the fields, under each root
 		var picked []string
 		for _, f := range zooItemFields {
@@ -355,7 +386,7 @@ func c14Zoo(c *Ctx, r *Rand, rounds int) {
 		for _, f := range picked {
 			body += f + " "
 		}
-		query := "query Z { items { " + body + "self { id tx } } values { " + body + "} first { " + body + "} }"
+		query := "query Z { items { " + body + "self { id tx } } values { " + body + "} first { " + body + "} grid { __typename label n } }"
 		cs := map[string]interface{}{"zoo": true, "query": query, "items": items}
 		q, err := graphql.Parse(query, map[string]interface{}{})
 		if err != nil {
@@ -405,6 +436,7 @@ func zooBuilderFor(items []*zooItem) *schemabuilder.Schema {
 	q.FieldFunc("items", func(ctx context.Context) []*zooItem { return items })
 	q.FieldFunc("values", func(ctx context.Context) []zooItem { return nil })
 	q.FieldFunc("first", func(ctx context.Context) *zooItem { return nil })
+	q.FieldFunc("grid", func(ctx context.Context) [][]zooCell { return nil })
 	sb.Mutation()
 	return sb
 }
